@@ -271,6 +271,7 @@ type clusterOpts struct {
 	memPoolSize      int
 	extraCommittee   int
 	maxBlockSysFee   int64
+	maxBlockSize     uint32
 	validUntilIncr   uint32
 	skipVerification bool
 }
@@ -320,6 +321,7 @@ func newCluster(dir string, o clusterOpts) (*cluster, error) {
 				MaxTraceableBlocks:          10000,
 				MaxTransactionsPerBlock:     o.maxTxPerBlock,
 				MaxBlockSystemFee:           o.maxBlockSysFee,
+				MaxBlockSize:                o.maxBlockSize,
 				MaxValidUntilBlockIncrement: o.validUntilIncr,
 				StandbyCommittee:            committee,
 				ValidatorsCount:             uint32(o.n),
